@@ -15,7 +15,7 @@ def run(tier):
 
     def sig(clause, e):
         c = e["c"]
-        return {"clause": clause, "faults": c["faults"], "stall": "stall_body" in c["faults"], "strategy": c["strategy"], "f": c["f"],
+        return {"clause": clause, "faults": c["faults"], "stall": any(f.startswith("stall_body") for f in c["faults"]), "strategy": c["strategy"], "f": c["f"],
                 "outcomes": [r.get("outcome") for r in e["o"].get("reqs", [])], "probe": e["o"].get("probe"), "second": e["o"].get("second")}
     cases.judge(chk, "ObsFaultsTrace", "ObsFaultsTrace.cfg", tp, sig, "fault")
     chk.sample({"case": cs[len(cs) // 2]})
